@@ -60,18 +60,23 @@ def judge(ln):
             def on_ray(v):
                 w = sub(v, q); c = cross(dirv, w)
                 return dot(w, dirv) > 0 and float(n2(c)) <= 1e-16 * float(n2(dirv)) * max(float(n2(w)), 1e-300)
-            def near_ray(v):
-                # ahead of the query and within twice the coincidence tolerance of the ray's supporting line, but not on it
-                w = sub(v, q); c = cross(dirv, w)
-                return dot(w, dirv) > 0 and not on_ray(v) and float(n2(c)) < 4e-10 * float(n2(dirv))
+            def along_ray(v, u):
+                # the edge between the on-ray vertex v and its neighbour u runs along the ray: ahead of the query, not on the
+                # ray, and either within twice the coincidence tolerance of the ray's line or within 2e-4 rad of its direction
+                # (the parameter of the line intersection is then too ill-conditioned for test_point's snapping of 1e-8: at a
+                # distance of 1e3 from the origin the placement noise of v is 5e-13 and moves it by 5e-13 / (sin x length),
+                # i.e. by 1e-8 for an edge of half a metre at 1e-4 rad)
+                w = sub(u, q); c = cross(dirv, w)
+                if not (dot(w, dirv) > 0 and not on_ray(u)): return False
+                if float(n2(c)) < 4e-10 * float(n2(dirv)): return True
+                e = sub(u, v); ce = cross(dirv, e)
+                return float(n2(ce)) < 4e-8 * float(n2(dirv)) * float(n2(e))
             for grp in [outer] + holes:
                 m = len(grp)
                 for k in range(m):
                     if on_ray(grp[k]):
                         key = 'wrong-answer-ray-through-vertex'
-                        # the edge that leaves (or reaches) that vertex runs along the ray within the coincidence tolerance: its
-                        # other end is neither on the ray nor clear of it
-                        if near_ray(grp[(k + 1) % m]) or near_ray(grp[(k - 1) % m]):
+                        if along_ray(grp[k], grp[(k + 1) % m]) or along_ray(grp[k], grp[(k - 1) % m]):
                             return ('fail', 'wrong-answer-ray-through-vertex:edge-along-ray-within-tolerance',
                                     'test_point = %s but the exact winding number says %s (ray through a vertex whose neighbour is within 2e-5 of the ray)' % (got, want))
         return ('fail', key, 'test_point = %s but the exact winding number says %s' % (got, want))
